@@ -8,6 +8,8 @@ from .. import paths
 from ..core import FUNC, call_attr, calls_in, chain, dotted, kwarg, text, walk_local, norm, is_const, const
 
 EXPLANATION = [
+    'C03.address-equality: (shared with C06) Address.__eq__ compares the bytes and the public / random kind only: a pending LE Create Connection naming an identity-typed peer address matches the advertiser and is concluded.',
+    'C03.status-helper: Controller._send_hci_command_status sends exactly one event and returns nothing: handlers that end with `return self._send_hci_command_status(...)` give the dispatcher nothing to turn into a second Command Status.',
     'C03.match-arms: in the match statements of the anchored modules no class arm comes after an arm for one of its base classes (class patterns are isinstance tests in order: the later arm would never run).',
     "C03.ready-gate: while the host is not ready (reset in progress) Host.on_packet still dispatches the Command Complete / Command Status whose opcode is the pending command's: a command queued behind reset() cannot lose its response and block the command semaphore.",
     "C03.le-connection-concluded: every exit of Controller.create_le_connection has emitted an LE Connection Complete event and cleared pending_le_connection (path rule), the 'already connected to this peer' exit included.",
@@ -1132,7 +1134,34 @@ def match_arms_rule(ctx):
     match_arm_shadowing(ctx, 'C03.match-arms', ['bumble.controller', 'bumble.host'])
 
 
+def status_helper(ctx):
+    """Handlers of asynchronous commands send their Command Status through `_send_hci_command_status` and several end with
+    `return self._send_hci_command_status(...)`.  The dispatcher sends a Command Status of its own whenever a handler
+    returns something: the helper therefore returns nothing, or those commands are answered twice."""
+    R, p = ctx.r, ctx.p
+    rule = 'C03.status-helper'
+    fn = p.find('bumble.controller.Controller._send_hci_command_status')
+    disp = p.find('bumble.controller.Controller.on_hci_command_packet')
+    if fn is None or disp is None:
+        R.bad(rule, 'bumble.controller.Controller._send_hci_command_status / on_hci_command_packet', 'anchor missing')
+        return
+    rets = [r for r in walk_local(fn) if isinstance(r, ast.Return) and r.value is not None and not (isinstance(r.value, ast.Constant) and r.value.value is None)]
+    sends = [c for c in calls_in(fn) if dotted(c.func) == 'self.send_hci_packet']
+    R.check(not rets and len(sends) == 1, rule, 'bumble.controller.Controller._send_hci_command_status', 'sends one event and returns nothing',
+            'the status helper returns a value: handlers that end with `return self._send_hci_command_status(...)` hand it to the dispatcher, which then sends a second Command Status for the same command (the duplicate is taken as the answer to the next command)', p.loc(fn))
+    ctl = p.cls('bumble.controller.Controller')
+    n = sum(1 for m in ctl.methods.values() for r in walk_local(m) if isinstance(r, ast.Return) and isinstance(r.value, ast.Call) and dotted(r.value.func) == 'self._send_hci_command_status') if ctl else 0
+    R.ok(rule, 'bumble.controller.Controller | handlers returning the helper\'s result', f'{n} handlers rely on the helper returning None', p.loc(disp))
+
+
+def address_equality_rule(ctx):
+    from .c06 import address_equality
+    address_equality(ctx, 'C03.address-equality')
+
+
 RULES = [
+    ('C03.address-equality', address_equality_rule),
+    ('C03.status-helper', status_helper),
     ('C03.match-arms', match_arms_rule),
     ('C03.ready-gate', ready_gate),
     ('C03.le-connection-concluded', le_connection_concluded),
